@@ -21,25 +21,37 @@ for f in sorted(glob.glob('/verif/seeded/C*/meta.json')):
 txt = """
 ### 12.6 Seeded changes and which check catches them
 
-Two rounds of fresh sub-agents (m1/m2: against the tree with only the hooks; m3/m4: against the tree with all repairs,
-told one-line summaries of m1/m2 so that they would pick other sites). Each agent saw only the property text and its own
-scratch worktree, never /verif. Every change was confirmed there before it was kept (`seeded/_confirm/*.log`: repository
-suite 255 passed / 0 failed with the change, demonstration fails with it and passes without it). Seven m1/m2 patches had
-to be re-applied by hand after repairs touched the same lines (`patch.orig.diff` is kept next to `patch.diff`).
+Three rounds of fresh sub-agents: m1/m2 against the tree with only the hooks; m3/m4 and m5/m6 (14 properties) against
+the tree with all repairs, each time told one-line summaries of the changes already known for the property so that they
+would pick other sites and mechanisms. Each agent saw only the property text and its own scratch worktree, never /verif.
+Every change was confirmed there before it was kept (`seeded/_confirm/*.log`: repository suite 255 passed / 0 failed
+with the change, demonstration fails with it and passes without it; the four demonstrations that are scripts rather than
+Rust tests were run by hand). Seven m1/m2 patches had to be re-applied by hand after repairs touched the same lines
+(`patch.orig.diff` is kept next to `patch.diff`).
 
-Result of `lib/sweep_seeded.sh` on the current tree (apply to /repo, `./check <Cxx> quick`, revert): **%d of %d detected**.
-Not detected: C03-m2 and C10-m1 (the same dropped `clear()`, harmless since repair 36f4a80 — detected before that
-repair), and C15-m4 (a decimal point directly after a unit, `1万.5` → 10000.5: the statement does not say that this
-shape is malformed and 10000.5 is its natural value, so the evaluator calls it "unspecified" instead of demanding more
-than the property states).
+Result of the sweeps (`lib/sweep_seeded.sh` applies to /repo and reverts; `lib/sweep_alt.sh` uses a scratch worktree
+through `VERIF_REPO`, so that long runs against /repo are not disturbed): **%d of %d are detected by the quick check of
+the property they were written for.** The other five:
 
-Monitors that were strengthened because a seeded change was missed or was inconclusive at first: C01 (compounds whose
-last unit is longer than declared; accessor / split panics count; marks that an earlier plugin resizes), C18 (twin load
-as reference; contended first use), C11 (long-lived tokenizers, request kept between analyses), C14 (katakana words with
-a headword of another length; panics that occur only with the plugins). Monitors extended after *reading* a wave-3
-change description but before running it: C06 (call sequences, user dictionaries, must-accept ids), C09 (modes reached
-through set_subset + set_mode), C11 (long strings), C14 (comparison with the mode-C analysis), C15 (decimal
-coefficients), C16 (short words ending with a terminator), C19 (projections, numerals for -w), C20 (POS arity).
+* C03-m2 and C10-m1 — the same dropped `clear()`; harmless since repair 36f4a80 (detected before that repair).
+* C15-m4 — a decimal point directly after a unit (`1万.5` joined as 10000.5): the statement does not say that this shape
+  is malformed and 10000.5 is its natural value, so the evaluator calls it "unspecified" instead of demanding more than
+  the property states.
+* C10-m6 — a change in python/src only, invisible through the Rust API that C10 drives; detected by `./check C19`.
+* C12-m6 — the compiler accepts a reference one past the last word; C12 generates only valid references; detected by
+  `./check C06`.
+
+Monitors that were strengthened because a seeded change was missed or inconclusive at first: C01 (compounds whose last
+unit is longer than declared; accessor / split panics count; marks that an earlier plugin resizes), C18 (twin load as
+reference; contended first use; many distinct expanding characters + ASan stage; pre-tokenizer threads with a stand-in
+`tokenizers` module), C11 (long-lived tokenizers, request kept between analyses), C14 (katakana words with a headword of
+another length; panics that occur only with the plugins), C10 (split list attached to a stale narrow-request list),
+C13 (exact-length long regex matches). Monitors extended after *reading* a change description but before running it:
+C02 (OOV parameters vs definitions, empty input), C04/C05 (keys starting with `#`, other negative left ids), C06 (call
+sequences, user dictionaries, must-accept ids, 127/128/129-unit strings), C08 (rejected edit batches), C09 (modes
+reached through set_subset + set_mode), C11 (long strings), C14 (comparison with the mode-C analysis, degenerate merges),
+C15 (decimal coefficients), C16 (short words ending with a terminator, window larger than default, や/の), C19
+(projections, numerals for -w, empty input into a reused list), C20 (POS arity).
 
 | change | what it does | quick check of its property | first violation kind |
 |---|---|---|---|
